@@ -881,7 +881,19 @@ impl Check for C08 {
                 let chunk = *rng.pick(&[Chunk::All, Chunk::One, Chunk::Rand, Chunk::Fixed(2)]);
                 let cfg = CaseCfg { rx: rx(), tx: 512, keepalive: 0, ..CaseCfg::default() };
                 let mut steps = vec![];
-                if pre {
+                // one case in four: nothing is torn; the earlier connection completed its handshake
+                // under a CONNACK full of restrictions (tiny Maximum Packet Size, Maximum QoS,
+                // Receive Maximum 1, Server Keep Alive), none of which the next CONNACK repeats:
+                // what arrives on the next connection is judged by that connection's CONNACK alone
+                let limits_before = !pre && rng.chance(1, 4);
+                if limits_before {
+                    let mut props = vec![Prop::MaximumPacketSize(*rng.pick(&[1u32, 2, 3, 4, 8, 20])), Prop::MaximumQoS(*rng.pick(&[0u8, 1])), Prop::ReceiveMaximum(1), Prop::ServerKeepAlive(*rng.pick(&[0u16, 1, 600]))];
+                    rng.shuffle(&mut props);
+                    props.truncate(1 + rng.below(4));
+                    steps.push(Step::Connect(ConnectSpec { policy: IoPolicy::default(), faults: vec![], connack: ConnackSpec::Normal { sp: SpMode::Force(false), reason: 0, props }, broker: BrokerPolicy { acks: AckMode::Never, ping: AckMode::Immediate, fail_pct: 0, longform_pct: 0 }, cancel_at: None }));
+                    steps.push(if rng.chance(1, 4) { Step::ForgetConn } else { Step::DropConn });
+                    out.count("reconnects_after_a_connection_with_restrictive_limits", 1);
+                } else if pre {
                     // the CONNACK itself is torn: connect() waits for the rest and is given up
                     steps.push(Step::Connect(ConnectSpec { policy: IoPolicy { read: chunk, ..IoPolicy::default() }, faults: vec![], connack: ConnackSpec::Raw(torn[..k].to_vec()), broker: BrokerPolicy::default(), cancel_at: None }));
                 } else {
@@ -890,7 +902,15 @@ impl Check for C08 {
                     steps.push(poll0());
                     steps.push(if rng.chance(1, 4) { Step::ForgetConn } else { Step::DropConn });
                 }
-                let next = rc::encode_server(&rand_valid(&mut rng, true));
+                let next = if limits_before && rng.chance(2, 3) {
+                    let q = 1 + rng.below(2) as u8;
+                    rc::encode_server(&match rng.below(3) {
+                        0 => SPacket::PubRel { pid: *rng.pick(&[1u16, 9, 65535]), reason: None, props: None },
+                        _ => SPacket::Publish { dup: false, qos: q, retain: false, topic: "lim".into(), pid: Some(*rng.pick(&[1u16, 9, 65535])), props: vec![], payload: vec![1, 2, 3] },
+                    })
+                } else {
+                    rc::encode_server(&rand_valid(&mut rng, true))
+                };
                 let second_at = steps.len();
                 steps.push(Step::Connect(ConnectSpec { policy: IoPolicy { read: chunk, ..IoPolicy::default() }, faults: vec![], connack: ConnackSpec::ok(SpMode::Honest), broker: BrokerPolicy { acks: AckMode::Never, ping: AckMode::Never, fail_pct: 0, longform_pct: 0 }, cancel_at: None }));
                 steps.push(Step::Broker(BrokerAct::SendRaw(next.clone())));
